@@ -428,7 +428,7 @@ def write_evidence(ctx: Ctx, gate: ProofGate | None, level: str, rule: str, trus
         "coverage": cov, "assumptions": assumptions,
         "wall_s": round(time.time() - ctx.t0, 2), "violations": len(ctx.violations),
     }
-    d = VERIF / "evidence"
-    d.mkdir(exist_ok=True)
+    d = Path(os.environ.get("VERIF_EVIDENCE_DIR", str(VERIF / "evidence")))   # override: development sweeps only
+    d.mkdir(parents=True, exist_ok=True)
     (d / f"{ctx.pid}.json").write_text(json.dumps(ev, indent=1, sort_keys=True) + "\n")
     return ev
